@@ -846,6 +846,78 @@ pub fn corpus() -> Vec<KCase> {
     c.style = LenStyle::Generic;
     v.push(c);
     v.extend(yen_corpus());
+    v.extend(cfg_corpus());
+    v
+}
+
+/// the algorithm deserialised from its `[algorithm]` section
+pub fn cfg_corpus() -> Vec<KCase> {
+    let mut v = vec![];
+    let with = |base: SCase, yen: bool, cfg: serde_json::Value, ok: bool, label: &'static str| {
+        let mut c = kcase(base, label);
+        c.yen = yen;
+        c.cfg = Some(cfg);
+        c.cfg_ok = Some(ok);
+        c
+    };
+    // the repaired nesting defect: single-via over a k-shortest-paths `underlying` on the 2 x 3 two-way grid
+    // joined two FORWARD trees (the nested algorithm ignored Direction::Reverse) and returned [e0,e2,e13]
+    // = 0->1, 1->2, 5->2; the reverse run is now refused and the shortest route is returned alone
+    let mut c = with(two_by_three_grid(), false, serde_json::json!({"type": "ksp_single_via", "k": 3, "underlying": {"type": "yens", "k": 2, "underlying": {"type": "dijkstra"}}}), true, "nested-underlying-witness");
+    c.k_default = 3;
+    v.push(c);
+    let mut c = with(two_by_three_grid(), false, serde_json::json!({"type": "ksp_single_via", "k": 3, "underlying": {"type": "ksp_single_via", "k": 2, "underlying": {"type": "dijkstra"}}}), true, "nested-single-via");
+    c.k_default = 3;
+    v.push(c);
+    let mut c = with(two_by_three_grid(), true, serde_json::json!({"type": "yens", "k": 3, "underlying": {"type": "ksp_single_via", "k": 0, "underlying": {"type": "dijkstra"}}}), true, "nested-yens-over-k0");
+    c.k_default = 3;
+    v.push(c);
+    let mut c = with(two_by_three_grid(), false, serde_json::json!({"type": "ksp_single_via", "k": 3, "underlying": {"type": "yens", "k": 2, "underlying": {"type": "ksp_single_via", "k": 0, "underlying": {"type": "dijkstra"}}}}), true, "nested-three-levels");
+    c.k_default = 3;
+    v.push(c);
+    // every field, object and sequence form
+    let mut c = with(
+        two_by_three_grid(),
+        false,
+        serde_json::json!({"type": "ksp_single_via", "k": 4, "underlying": {"type": "a*", "weight_factor": 1.0}, "similarity": {"type": "edge_id_cosine_similarity", "threshold": 0.6}, "termination": {"type": "max_iteration", "max": 9}}),
+        true,
+        "config-all-fields",
+    );
+    c.k_default = 4;
+    c.base.astar = Some(Some(1.0));
+    c.sim = Some(Sim::EdgeId(0.6));
+    c.term = Some(KTerm::MaxIt(9));
+    c.bf_ok = false;
+    v.push(c);
+    let mut c = with(two_by_three_grid(), true, serde_json::json!(["yens", 3, ["dijkstra"], ["accept_all"], ["exact"]]), true, "config-sequence-form");
+    c.k_default = 3;
+    c.sim = Some(Sim::AcceptAll);
+    c.term = Some(KTerm::Exact);
+    v.push(c);
+    // k from the query overrides the configured k
+    let mut c = with(two_by_three_grid(), false, serde_json::json!({"type": "ksp_single_via", "k": 1, "underlying": {"type": "dijkstra"}}), true, "config-k-overridden-by-query");
+    c.k_default = 1;
+    c.query_k = Some(serde_json::json!(3));
+    v.push(c);
+    // malformed
+    for (cfg, l) in [
+        (serde_json::json!({"type": "ksp_single_via", "underlying": {"type": "dijkstra"}}), "config-missing-k"),
+        (serde_json::json!({"type": "yens", "k": 2}), "config-missing-underlying"),
+        (serde_json::json!({"type": "yens", "k": 2.0, "underlying": {"type": "dijkstra"}}), "config-k-float"),
+        (serde_json::json!({"type": "yens", "k": 2, "underlying": {"type": "dijkstra"}, "termination": {"type": "factor", "factor": 1.5}}), "config-factor-float"),
+        (serde_json::json!({"type": "yens", "k": 2, "underlying": {"type": "dijkstra"}, "similarity": {"type": "edge_id_cosine_similarity", "threshold": null}}), "config-threshold-null"),
+        (serde_json::json!(["ksp_single_via", 2, ["dijkstra"]]), "config-sequence-too-short"),
+    ] {
+        v.push(with(diamond(), l.contains("yens"), cfg, false, l));
+    }
+    // a weight_factor of the wrong type in the query: build error
+    let mut c = kcase(diamond(), "query-weight-factor-not-a-number");
+    c.query_wf_json = Some(serde_json::json!("fast"));
+    v.push(c);
+    // a reverse query is refused
+    let mut c = kcase(diamond(), "reverse-query-refused");
+    c.base.reverse = true;
+    v.push(c);
     v
 }
 
@@ -959,6 +1031,18 @@ pub fn yen_corpus() -> Vec<KCase> {
     let mut c = ycase(stale_link_witness(false), 2, "yen-stale-link");
     c.bf_ok = false;
     c.style = LenStyle::Generic;
+    v.push(c);
+    // a candidate whose junction turn has no entry in the turn-delay table is dropped (reorient fails): the
+    // turn (e0, e3) is restricted, so the first search never traverses e3 after e0; the spur search from 1
+    // starts without a previous edge and offers [e3, e4]
+    let mut b = base_case(vec![(0, 1, 1.0), (1, 2, 1.0), (2, 3, 1.0), (1, 4, 2.0), (4, 3, 2.0)], 5, 0, 3);
+    b.feats.push(("time".into(), FeatK::T(TimeUnit::Seconds), 0.0));
+    let mut delays = [Some(1.0); 8];
+    delays[4] = None; // "left"
+    b.access = Acc::Turn { tu: TimeUnit::Seconds, headings: vec![(0, None), (0, None), (0, None), (270, None), (0, None)], delays };
+    b.frontier = vec![Fr::TurnRestriction(vec![(0, 3)])];
+    let mut c = ycase(b, 2, "yen-candidate-retraversal-fails");
+    c.bf_ok = false;
     v.push(c);
     // edge-oriented, A* underlying
     let mut c = ycase(two_by_three_grid(), 2, "yen-grid-edge-oriented");
@@ -2317,6 +2401,322 @@ pub fn run_prop_stream(ctx: &mut Ctx, s: Stream) {
 }
 
 // ---------------------------------------------------------------------------------------------
+// `kterm`: KspTerminationCriteria — deserialisation from configuration, Display, terminate_search
+
+fn gen_u64_edge(rng: &mut Rng, near: u64) -> u64 {
+    match rng.below(12) {
+        0 => 0,
+        1 => 1,
+        2 => 2,
+        3 => near,
+        4 => near.saturating_sub(1),
+        5 => near.saturating_add(1),
+        6 => 1u64 << 31,
+        7 => (1u64 << 32) + 1,
+        8 => 1u64 << 53,
+        9 => 1u64 << 63,
+        10 => u64::MAX,
+        _ => rng.next() >> rng.below(64),
+    }
+}
+
+fn kterm_case(rng: &mut Rng, hand: Option<(serde_json::Value, Option<bool>, u64, u64)>) -> (serde_json::Value, Option<bool>, u64, u64) {
+    if let Some(h) = hand {
+        return h;
+    }
+    let k = gen_u64_edge(rng, 3);
+    let n = if rng.chance(2, 3) { k } else { gen_u64_edge(rng, k) };
+    let v = gen_u64_edge(rng, k);
+    let (good, name, field) = match rng.below(3) {
+        0 => (serde_json::json!({"type": "exact"}), "exact", ""),
+        1 => (serde_json::json!({"type": "max_iteration", "max": v}), "max_iteration", "max"),
+        _ => (serde_json::json!({"type": "factor", "factor": v}), "factor", "factor"),
+    };
+    match rng.below(10) {
+        0 => {
+            // sequence form
+            let j = if field.is_empty() { serde_json::json!([name]) } else { serde_json::json!([name, v]) };
+            (j, Some(true), k, n)
+        }
+        1 | 2 | 3 => {
+            let bad = match rng.below(12) {
+                0 => serde_json::json!({"max": v, "factor": v}),
+                1 => serde_json::json!({"type": name.to_uppercase(), "max": v, "factor": v}),
+                2 => serde_json::json!({"type": "max_iteration", "max": v as f64 + 0.5}),
+                3 => serde_json::json!({"type": "factor", "factor": -((v % 1000) as i64) - 1}),
+                4 => serde_json::json!({"type": "max_iteration", "max": v.to_string()}),
+                5 => serde_json::json!({"type": "factor", "factor": null}),
+                6 => serde_json::json!({"type": "max_iteration"}),
+                7 => serde_json::json!(name),
+                8 => serde_json::json!([name, v, v]),
+                9 => serde_json::json!({"type": 7}),
+                10 => serde_json::json!({"type": "factor", "factor": 1.0e30}),
+                _ => serde_json::json!(["max_iteration"]),
+            };
+            (bad, Some(false), k, n)
+        }
+        4 => {
+            // unknown keys are ignored
+            let mut j = good.clone();
+            j["note"] = serde_json::json!("ignored");
+            j["k"] = serde_json::json!(3);
+            (j, Some(true), k, n)
+        }
+        _ => (good, Some(true), k, n),
+    }
+}
+
+fn run_kterm(ctx: &mut Ctx, n: usize) {
+    let hand: Vec<(serde_json::Value, Option<bool>, u64, u64)> = vec![
+        // the repaired overflow: factor 2^63 with k = 2 wrapped to 0 (release) / panicked (debug)
+        (serde_json::json!({"type": "factor", "factor": 1u64 << 63}), Some(true), 2, 2),
+        (serde_json::json!({"type": "factor", "factor": u64::MAX}), Some(true), 2, 2),
+        (serde_json::json!({"type": "factor", "factor": u64::MAX}), Some(true), u64::MAX, u64::MAX),
+        (serde_json::json!({"type": "factor", "factor": 0}), Some(true), 0, 0),
+        (serde_json::json!({"type": "factor", "factor": 0}), Some(true), 2, 2),
+        (serde_json::json!({"type": "factor", "factor": 1}), Some(true), 2, 2),
+        (serde_json::json!({"type": "max_iteration", "max": 0}), Some(true), 0, 0),
+        (serde_json::json!({"type": "max_iteration", "max": 1}), Some(true), 2, 2),
+        (serde_json::json!({"type": "max_iteration", "max": 2}), Some(true), 2, 2),
+        (serde_json::json!({"type": "max_iteration", "max": u64::MAX}), Some(true), u64::MAX, u64::MAX),
+        (serde_json::json!({"type": "exact"}), Some(true), 0, 1),
+        (serde_json::json!({"type": "exact"}), Some(true), 1, 1),
+        (serde_json::json!(["exact"]), Some(true), 1, 1),
+        (serde_json::json!(["exact", 1]), Some(false), 1, 1),
+        (serde_json::json!([]), Some(false), 1, 1),
+        (serde_json::json!({}), Some(false), 1, 1),
+    ];
+    let total = hand.len() + n;
+    for j in 0..total {
+        let Some(idx) = ctx.begin() else { continue };
+        let mut rng = Rng::for_case(ctx.seed, 1313, j as u64);
+        let (json, good, k, size) = kterm_case(&mut rng, hand.get(j).cloned());
+        let line = format!("kterm {} {} {}", jsonproto::enc(&json), k, size);
+        let parsed: Result<KspTerminationCriteria, _> = serde_json::from_value(json.clone());
+        ctx.count("kterm_case");
+        let out = match &parsed {
+            Err(_) => {
+                ctx.count("kterm_config_error");
+                if good == Some(true) {
+                    ctx.fail(idx, "ksp-termination/valid-configuration-refused", json.to_string());
+                }
+                "cfgerr".to_string()
+            }
+            Ok(t) => {
+                if good == Some(false) {
+                    ctx.fail(idx, "ksp-termination/malformed-configuration-accepted", json.to_string());
+                }
+                let t2 = t.clone();
+                let res = std::panic::catch_unwind(std::panic::AssertUnwindSafe(|| (t2.to_string(), t2.terminate_search(k as usize, size as usize))));
+                match res {
+                    Err(_) => {
+                        ctx.fail(idx, "ksp-termination/panic", format!("{} terminate_search({}, {})", json, k, size));
+                        "panic".to_string()
+                    }
+                    Ok((text, stop)) => {
+                        // the criteria as documented, in arithmetic that cannot overflow
+                        let (want, want_text) = match t {
+                            KspTerminationCriteria::Exact => (size == k, "terminate with up to k routes found".to_string()),
+                            KspTerminationCriteria::MaxIteration { max } => (size == k && *max >= k, format!("terminate with {} routes found", max)),
+                            KspTerminationCriteria::Factor { factor } => {
+                                (size == k && (*factor as u128) * (size as u128) >= k as u128, format!("terminate with k*{} routes found", factor))
+                            }
+                        };
+                        ctx.count(match t {
+                            KspTerminationCriteria::Exact => "kterm_exact",
+                            KspTerminationCriteria::MaxIteration { .. } => "kterm_max_iteration",
+                            KspTerminationCriteria::Factor { .. } => "kterm_factor",
+                        });
+                        if stop {
+                            ctx.count("kterm_stops");
+                            ctx.nontrivial(&line);
+                        }
+                        if stop != want {
+                            let overflow = matches!(t, KspTerminationCriteria::Factor { factor } if (*factor as u128) * (size as u128) > u64::MAX as u128);
+                            ctx.fail(idx, if overflow { "ksp-termination/factor-overflow" } else { "ksp-termination/wrong-decision" }, format!("{} terminate_search({}, {}) = {} but the criterion says {}", json, k, size, stop, want));
+                        }
+                        if text != want_text {
+                            ctx.fail(idx, "ksp-termination/display", format!("{} displayed as '{}'", json, text));
+                        }
+                        format!("ok {} {}", jsonproto::hex(&text), if stop { 1 } else { 0 })
+                    }
+                }
+            }
+        };
+        ctx.emit(idx, line, out);
+    }
+}
+
+// ---------------------------------------------------------------------------------------------
+// `ksim`: RouteSimilarityFunction — deserialisation from configuration, rank, is_similar, test
+
+fn run_ksim(ctx: &mut Ctx, n: usize) {
+    use routee_compass_core::algorithm::search::edge_traversal::EdgeTraversal;
+    let et = |e: usize| EdgeTraversal { edge_id: EdgeId(e), access_cost: Cost::ZERO, traversal_cost: Cost::ZERO, result_state: vec![] };
+    // hand-written: (config, lengths, a, b)
+    let hand: Vec<(serde_json::Value, Vec<f64>, Vec<usize>, Vec<usize>)> = vec![
+        // routes of different norms: |a|^2 = 9 + 16, |b|^2 = 16 + 144, common edge 1: rank 16 / (5 * sqrt 160)
+        (serde_json::json!({"type": "distance_weighted_cosine_similarity", "threshold": 0.25}), vec![3.0, 4.0, 12.0], vec![0, 1], vec![1, 2]),
+        (serde_json::json!({"type": "distance_weighted_cosine_similarity", "threshold": 0.26}), vec![3.0, 4.0, 12.0], vec![0, 1], vec![1, 2]),
+        (serde_json::json!({"type": "edge_id_cosine_similarity", "threshold": 0.5}), vec![3.0, 4.0, 12.0], vec![0, 1], vec![1, 2]),
+        (serde_json::json!({"type": "edge_id_cosine_similarity", "threshold": 0.5000001}), vec![3.0, 4.0, 12.0], vec![0, 1], vec![1, 2]),
+        // identical routes, thresholds at the boundaries
+        (serde_json::json!({"type": "edge_id_cosine_similarity", "threshold": 1}), vec![1.0; 4], vec![0, 1, 2], vec![0, 1, 2]),
+        (serde_json::json!({"type": "edge_id_cosine_similarity", "threshold": 1}), vec![1.0; 4], vec![0, 1], vec![0, 1]),
+        (serde_json::json!({"type": "edge_id_cosine_similarity", "threshold": 0}), vec![1.0; 4], vec![0, 1], vec![2, 3]),
+        (serde_json::json!({"type": "distance_weighted_cosine_similarity", "threshold": 1.0}), vec![3.0, 4.0, 12.0], vec![0, 1, 2], vec![0, 1, 2]),
+        // empty routes, zero-length edges: 0 / 0
+        (serde_json::json!({"type": "edge_id_cosine_similarity", "threshold": 0}), vec![1.0; 4], vec![], vec![0]),
+        (serde_json::json!({"type": "edge_id_cosine_similarity", "threshold": 0}), vec![1.0; 4], vec![], vec![]),
+        (serde_json::json!({"type": "distance_weighted_cosine_similarity", "threshold": 0}), vec![0.0, 0.0, 5.0], vec![0, 1], vec![0, 2]),
+        (serde_json::json!({"type": "distance_weighted_cosine_similarity", "threshold": -1}), vec![0.0, 0.0, 5.0], vec![0, 1], vec![0, 1]),
+        // an edge twice in a route counts once; an unknown edge id is a network error for the weighted variant only
+        (serde_json::json!({"type": "edge_id_cosine_similarity", "threshold": 0.7}), vec![1.0; 4], vec![0, 0, 1], vec![0, 1, 1]),
+        (serde_json::json!({"type": "distance_weighted_cosine_similarity", "threshold": 0.7}), vec![1.0; 2], vec![0, 7], vec![0, 1]),
+        (serde_json::json!({"type": "edge_id_cosine_similarity", "threshold": 0.7}), vec![1.0; 2], vec![0, 7], vec![0, 1]),
+        (serde_json::json!({"type": "accept_all"}), vec![1.0; 2], vec![0, 1], vec![0, 1]),
+        (serde_json::json!(["accept_all"]), vec![1.0; 2], vec![0, 9], vec![0, 1]),
+        (serde_json::json!({"type": "accept_all", "threshold": "x"}), vec![1.0; 2], vec![0], vec![1]),
+        (serde_json::json!({"type": "edge_id_cosine_similarity"}), vec![1.0; 2], vec![0], vec![1]),
+    ];
+    let total = hand.len() + n;
+    for j in 0..total {
+        let Some(idx) = ctx.begin() else { continue };
+        let mut rng = Rng::for_case(ctx.seed, 1314, j as u64);
+        let (json, lens, a, b, good): (serde_json::Value, Vec<f64>, Vec<usize>, Vec<usize>, Option<bool>) = if let Some(h) = hand.get(j) {
+            (h.0.clone(), h.1.clone(), h.2.clone(), h.3.clone(), None)
+        } else {
+            let n_e = 2 + rng.below(9);
+            // integer lengths: every sum of products is exact, so the rank does not depend on the order in
+            // which the code's HashMap / HashSet iterate
+            let lens: Vec<f64> = (0..n_e).map(|_| if rng.chance(1, 8) { 0.0 } else { (1 + rng.below(40)) as f64 }).collect();
+            let route = |rng: &mut Rng| -> Vec<usize> {
+                let len = rng.below(7);
+                (0..len).map(|_| if rng.chance(1, 40) { n_e + rng.below(3) } else { rng.below(n_e) }).collect()
+            };
+            let a = route(&mut rng);
+            let b = if rng.chance(1, 6) { a.clone() } else { route(&mut rng) };
+            let thr = match rng.below(8) {
+                0 => serde_json::json!(0),
+                1 => serde_json::json!(1),
+                2 => serde_json::json!(1.0),
+                3 => serde_json::json!(-0.5),
+                4 => serde_json::json!(1.5),
+                _ => serde_json::json!((rng.below(101) as f64) / 100.0),
+            };
+            let (json, good) = match rng.below(12) {
+                0 => (serde_json::json!({"type": "accept_all"}), true),
+                1 => (serde_json::json!({"type": "edge_id_cosine_similarity", "threshold": thr.to_string()}), false),
+                2 => (serde_json::json!({"type": "distance_weighted_cosine", "threshold": thr}), false),
+                3 => (serde_json::json!(["distance_weighted_cosine_similarity", thr]), true),
+                4 | 5 | 6 => (serde_json::json!({"type": "edge_id_cosine_similarity", "threshold": thr}), true),
+                _ => (serde_json::json!({"threshold": thr, "type": "distance_weighted_cosine_similarity"}), true),
+            };
+            (json, lens, a, b, Some(good))
+        };
+        let mut o: Vec<String> = vec!["ksim".into(), jsonproto::enc(&json), lens.len().to_string()];
+        o.extend(lens.iter().map(|x| fbits(*x)));
+        o.push(a.len().to_string());
+        o.extend(a.iter().map(|x| x.to_string()));
+        o.push(b.len().to_string());
+        o.extend(b.iter().map(|x| x.to_string()));
+        let line = o.join(" ");
+        ctx.count("ksim_case");
+        let parsed: Result<RouteSimilarityFunction, _> = serde_json::from_value(json.clone());
+        let out = match parsed {
+            Err(_) => {
+                ctx.count("ksim_config_error");
+                if good == Some(true) {
+                    ctx.fail(idx, "similarity/valid-configuration-refused", json.to_string());
+                }
+                "cfgerr".to_string()
+            }
+            Ok(f) => {
+                if good == Some(false) {
+                    ctx.fail(idx, "similarity/malformed-configuration-accepted", json.to_string());
+                }
+                // a graph with these edge lengths (a chain; the similarity functions only read `distance`)
+                let edges: Vec<(usize, usize, f64)> = lens.iter().enumerate().map(|(i, l)| (i, i + 1, *l)).collect();
+                let c = base_case(edges, lens.len() + 1, 0, lens.len());
+                let Ok(bt) = build(&c) else { continue };
+                let ra: Vec<EdgeTraversal> = a.iter().map(|e| et(*e)).collect();
+                let rb: Vec<EdgeTraversal> = b.iter().map(|e| et(*e)).collect();
+                let (pa, pb): (Vec<&EdgeTraversal>, Vec<&EdgeTraversal>) = (ra.iter().collect(), rb.iter().collect());
+                let f2 = f.clone();
+                let res = std::panic::catch_unwind(std::panic::AssertUnwindSafe(|| {
+                    let rank = f2.rank_similarity(&pa, &pb, &bt.si);
+                    let rank_rev = f2.rank_similarity(&pb, &pa, &bt.si);
+                    let test = f2.clone().test_similarity(&pa, &pb, &bt.si);
+                    (rank, rank_rev, test)
+                }));
+                match res {
+                    Err(_) => {
+                        ctx.fail(idx, "similarity/panic", format!("{} a = {:?} b = {:?}", json, a, b));
+                        "panic".to_string()
+                    }
+                    Ok((Ok(rank), Ok(rank_rev), Ok(test))) => {
+                        let similar = f.is_similar(rank);
+                        // independent computation: sorted distinct edge ids, weights by variant
+                        let weighted = matches!(f, RouteSimilarityFunction::DistanceWeightedCosineSimilarity { .. });
+                        let w = |e: usize| if weighted { lens[e] } else { 1.0 };
+                        let want = match f {
+                            RouteSimilarityFunction::AcceptAll => 0.0,
+                            _ => cosine(&a, &b, &w),
+                        };
+                        let same = |x: f64, y: f64| (x.is_nan() && y.is_nan()) || (x - y).abs() <= 1e-12 * x.abs().max(y.abs()).max(1.0);
+                        if !same(rank, want) {
+                            ctx.fail(idx, "similarity/rank-differs", format!("{} a = {:?} b = {:?} lengths {:?}: rank {} but the cosine of the two routes is {}", json, a, b, lens, rank, want));
+                        }
+                        if !same(rank, rank_rev) {
+                            ctx.fail(idx, "similarity/rank-not-symmetric", format!("{} a = {:?} b = {:?}: {} vs {}", json, a, b, rank, rank_rev));
+                        }
+                        let thr = match f {
+                            RouteSimilarityFunction::AcceptAll => None,
+                            RouteSimilarityFunction::EdgeIdCosineSimilarity { threshold } | RouteSimilarityFunction::DistanceWeightedCosineSimilarity { threshold } => Some(threshold),
+                        };
+                        let want_similar = thr.map_or(false, |t| rank >= t);
+                        if similar != want_similar || test != similar {
+                            ctx.fail(idx, "similarity/decision-differs", format!("{} rank {}: is_similar {} test_similarity {}", json, rank, similar, test));
+                        }
+                        ctx.count(match f {
+                            RouteSimilarityFunction::AcceptAll => "ksim_accept_all",
+                            RouteSimilarityFunction::EdgeIdCosineSimilarity { .. } => "ksim_edge_id",
+                            RouteSimilarityFunction::DistanceWeightedCosineSimilarity { .. } => "ksim_distance_weighted",
+                        });
+                        if rank.is_nan() {
+                            ctx.count("ksim_rank_nan");
+                        } else if rank > 0.0 && rank < 0.999 {
+                            ctx.count("ksim_rank_strictly_between_0_and_1");
+                            ctx.nontrivial(&line);
+                        }
+                        if similar {
+                            ctx.count("ksim_similar");
+                        }
+                        format!("ok {} {} {}", fbits(rank), if similar { 1 } else { 0 }, if test { 1 } else { 0 })
+                    }
+                    Ok((r1, _, r3)) => {
+                        let e = match (r1, r3) {
+                            (Err(e), _) => err_kind(&e),
+                            (_, Err(e)) => err_kind(&e),
+                            _ => "internal".to_string(),
+                        };
+                        ctx.count(&format!("ksim_err_{}", e));
+                        // only an edge id outside the graph, and only when lengths are read, may fail
+                        let unknown = a.iter().chain(b.iter()).any(|x| *x >= lens.len());
+                        let weighted = matches!(f, RouteSimilarityFunction::DistanceWeightedCosineSimilarity { .. });
+                        if !(unknown && weighted && e == "network") {
+                            ctx.fail(idx, "similarity/unexpected-error", format!("{} a = {:?} b = {:?}: {}", json, a, b, e));
+                        }
+                        format!("err {}", e)
+                    }
+                }
+            }
+        };
+        ctx.emit(idx, line, out);
+    }
+}
+
+// ---------------------------------------------------------------------------------------------
 
 fn run_single_via(ctx: &mut Ctx, idx: usize, kc: &KCase) {
     let c = &kc.base;
@@ -2467,5 +2867,7 @@ pub fn run(ctx: &mut Ctx) -> &'static str {
         }
     }
     run_yen_batch(ctx, yen_items);
+    run_kterm(ctx, ctx.n(300, 6000));
+    run_ksim(ctx, ctx.n(500, 10000));
     "diamond chains, grids, ladders, spur paths and random digraphs with tie-heavy / generic / metric lengths; single-via and Yen (Yen only in child processes under a 1 GiB address-space limit and a 2 s timeout); k = 0..6 from configuration and from the query (also non-integer); AcceptAll (explicit and default), edge-id and distance-weighted cosine thresholds; Exact / MaxIteration / Factor; Dijkstra and A* underlying; vertex and edge orientation; turn delays, turn restrictions, other frontier models and termination limits; non-trivial = successful query returning at least two routes, distinct by full output"
 }
